@@ -1,10 +1,11 @@
 CONSTANTS
   N = 8
   MaxTasks = 200
+  G = 3
   Dev = {}
 INIT TInit
 NEXT TNext
 CONSTRAINT Track
-INVARIANTS AtMostOnce OnlySubmittedRun LockNotHeldWhileRunning LockConsistent NeverPoisoned NoLossNoDup NoPrematureExit SingleShutdown
+INVARIANTS AtMostOnce OnlySubmittedRun LockNotHeldWhileRunning LockConsistent NeverPoisoned NoLossNoDup NoPrematureExit SingleShutdown HandlesOwn
 POSTCONDITION Accepted
 CHECK_DEADLOCK FALSE
